@@ -276,6 +276,33 @@ func c17stepRevoke(n int) {
 	c17checkListings(ctx, k, cs)
 }
 
+// A revoke request whose serial is written with a leading zero ("010"): message validation reads
+// it as the decimal 10; the handler must revoke that certificate and no other (8 = octal 010 is
+// stored as well).
+func Harness_C17_revoke_padded() {
+	ctx, k := c17env()
+	store := ctx.KVStore(k.skey)
+	cs := []c17cert{{owner: 0, serial: sdk.NewInt(8), state: types.CertificateValid}, {owner: 0, serial: sdk.NewInt(10), state: types.CertificateValid}}
+	for _, c := range cs {
+		val := types.Certificate{State: c.state, Cert: verif_CertPEM(verif_Addr(c.owner), c.serial), Pubkey: verif_PubPEM()}
+		store.Set(certificateKey(c17id(c)), k.cdc.MustMarshalBinaryBare(&val))
+	}
+	text := []string{"010", "10", "0010", "08"}[verif_Choice("serial-text", 4)]
+	err := c17revoke(ctx, k, &types.MsgRevokeCertificate{ID: types.CertificateID{Owner: verif_Addr(0), Serial: text}})
+	if err == nil {
+		verif_Reach("revoked")
+		want := 1 // decimal 10
+		if text == "08" {
+			want = 0
+		}
+		cs[want].state = types.CertificateRevoked
+	} else {
+		verif_Reach("revoke-rejected")
+	}
+	// exactly the named certificate changed (or nothing, if the request was refused)
+	c17checkListings(ctx, k, cs)
+}
+
 func Harness_C17_revoke_1() { c17stepRevoke(1) }
 func Harness_C17_revoke_2() { c17stepRevoke(2) }
 
